@@ -7,6 +7,7 @@ V = os.path.dirname(os.path.dirname(os.path.abspath(__file__)))
 CLAIMS = {
  # id: (category, text, note, technique, design_ref)
  "C01": ("proof",
+         "[session 3] Also: Verus proof that the real Debugger::step_over_breakpoint re-arms the breakpoint it stepped off on every successful return (local ghost flag, assert before every Ok exit), and a Kani proof that the TRAP_BRKPT arm of apply_new_status attributes the stop to the thread that trapped, at the rewound pc, marks it stopped and starts one group stop on its behalf. "
          "Kani/CBMC proofs (complete over all words, addresses and register files) of the two primitives every breakpoint stop is "
          "built from: Breakpoint::enable/disable arm and disarm exactly the requested address (shared with C02), and the TRAP_BRKPT "
          "statements of apply_new_status report the breakpoint's own address: rip is rewound by exactly one byte and no other register "
@@ -54,6 +55,7 @@ CLAIMS = {
          "capacity are recorded preconditions.",
          "Kani full-domain proofs + Verus proof of an extracted statement fragment", "2/C06"),
  "C07": ("proof",
+         "[session 3] Also: Verus proof that the Array arm of the real Value::index returns the element at POSITION i of the (possibly sliced) sequence for 0 <= i < len and no result for any other literal, negative or out-of-range index. "
          "Verus proof (unbounded, all bounds and lengths) that the real ArrayValue::slice keeps exactly elements l..r-1 for in-range "
          "bounds and the clamped intersection otherwise, and leaves a value without items untouched. Scope: the array slice operator "
          "only; grammar/precedence, canonical text round trip, index/deref/address/cast are not covered.",
@@ -70,6 +72,7 @@ CLAIMS = {
          "recorded preconditions: read_n <= isize::MAX, addr <= i64::MAX (DAP path), len <= cap for the deque ring.",
          "Verus implicit obligations on mechanically extracted real functions", "2/C08"),
  "C13": ("proof",
+         "[session 3] Also: Verus proofs that the three record predicates of with_breakpoint_record_mut match a record iff the stop address is ANY of its addresses (first match), that should_skip_breakpoint decides exactly as the property says (condition false => skip silently; hit condition not met => skip; logpoint => log once and skip; otherwise stop) and that BreakpointRegistry::remove_by_addr removes whatever is registered under the address (installed or not) and nothing else. "
          "Kani/CBMC proof over all (N, hits) pairs that the real HitCondition::matches is the arithmetic relation its variant names "
          "(hitCondition N stops on the N-th hit and only then; an invalid condition never suppresses a stop). Scope: the hit-count "
          "predicate only; replacement semantics, `verified`, conditions and logpoints are not covered.",
@@ -96,6 +99,7 @@ CLAIMS = {
          "filter+for_each composition of the mask is assumed.",
          "Verus contracts on extracted real functions over a ghost memory model + Kani register proofs", "2/C15"),
  "C16": ("proof",
+         "[session 3] Also: Kani proof that make_formatter_bytes_rust_1_87_plus builds exactly the core::fmt::Formatter image of rustc >= 1.87 (two pointers, flags = fill ' ' | ALIGN_UNKNOWN | ALWAYS_SET). "
          "Kani/CBMC proofs that the real get_reg_for_no places argument n in the n-th SysV integer register and that "
          "CallArgs::prepare_registers writes exactly the arguments, in order, leaving all other registers unchanged (any argument count "
          "0..6, all values); the trampoline word is `call *%rax; int3`, the jump patch `jmp *%rax` keeps the other six code bytes, "
@@ -105,6 +109,7 @@ CLAIMS = {
          "psABI 3.2.3 register order typed into the harness as oracle.",
          "Kani proofs on the real crate, full-domain symbolic values", "2/C16"),
  "C18": ("proof",
+         "[session 3] Also: Verus proofs that UninitBreakpoint::try_into_brkpt resolves a file-less address template against the object that contains the address (so a run-time address maps back to itself: into_global then relocate_to_segment), and that refresh_deferred keeps a deferred request exactly as long as it has not been installed. "
          "Kani/CBMC proof over all values that GlobalAddress::relocate and RelocatedAddress::remove_vas_region_offset are mutually "
          "inverse for every load offset; Verus proof that the real comparator of DwarfRegistry::find_range partitions any well-formed "
          "range table, so the lookup returns a range containing the address iff one exists. Scope: address conversion and region "
@@ -119,6 +124,7 @@ CLAIMS = {
          "psABI Fig. 3.36 typed into the harness as oracle.",
          "Kani proofs on the real crate, full-domain symbolic inputs", "2/C19+C05"),
  "C11": ("proof",
+         "[session 3] Also: Verus proofs on the real Drop::drop (launched process killed and reaped in every state; attached process released with all LIVE threads detached, no patch, no armed debug register, SIGCONT iff something was released), Debugger::restart_debugee (the new process is created only when the old one is gone; exactly one new process) and the per-breakpoint body of disable_all_breakpoints (user/entry breakpoints survive as one template keyed by the load-independent address with their number). "
          "Verus proof of the real Debugger::detach against a ghost protocol model: the threads are released with PTRACE_DETACH only "
          "after every INT3 patch was removed and every hardware debug register was cleared, SIGCONT is sent only to a released "
          "process, `detached` is latched exactly on success and a second call does nothing. Scope: the ordering inside detach; "
@@ -127,6 +133,7 @@ CLAIMS = {
          "errors of the two clean-up calls are ignored by the code and not modelled.",
          "Verus modular proof with ghost protocol state on the extracted real function", "8.4/C11"),
  "C12": ("proof",
+         "[session 3] Also: Verus proofs on the real send_response_raw / send_event_raw (sequence number = shared counter, request_seq and command of the request, counter advanced once) and on the dispatch loop run: for every request read exactly one response is written (against the dispatch contract 'a handler answers at most once and may fail afterwards', itself proved for handle_continue) -- this unit found the double response repaired by fix de3da29. "
          "Verus proof (any batch of queued events, any earlier history) of the real DebugSession::drain_events against a ghost record "
          "of the events put on the wire: nothing is sent once `terminated` is latched; `terminated` is sent at most once and is the "
          "last event; a process exit is announced as output*, process-end*, exited(code), terminated with the code of the batch; the "
@@ -136,6 +143,7 @@ CLAIMS = {
          "InternalEvent reduced to the variants the function distinguishes.",
          "Verus modular proof with ghost wire history on the extracted real function", "4.1/C12"),
  "C10": ("proof",
+         "[session 3] Also: Verus proof on the real Tracer::single_step (extracted whole, ghost ledger arrived/delivered) that every signal the debugger intercepts is delivered once or queued once (multiset balance) -- this unit found the quiet-signal double delivery repaired by fix c8e7fb7. "
          "Kani/CBMC proofs over all 31 signals that the quiet and transparent tables are exactly the sets of the property statement and "
          "that the signal-stop arm of apply_new_status queues every signal but SIGINT exactly once, at the back, with its thread, reports "
          "the stop with that thread and requests a group stop iff the signal is not quiet; Verus proof (any queue length) that "
